@@ -508,7 +508,16 @@ func (ctx *fromJSONSchemaContext) convertConst(s *lib.Schema) (core.ZodSchema, e
 	if s.Const == nil {
 		return types.Unknown(), nil
 	}
-	return types.Literal(s.Const.Value), nil
+	return literalSchema(s.Const.Value), nil
+}
+
+// literalSchema returns the schema for one const/enum member. JSON null has no
+// Literal (Literal(nil) cannot be built); it is the Nil schema.
+func literalSchema(v any) core.ZodSchema {
+	if v == nil {
+		return types.Nil()
+	}
+	return types.Literal(v)
 }
 
 // convertEnum converts an enum schema.
@@ -536,7 +545,7 @@ func (ctx *fromJSONSchemaContext) convertEnum(s *lib.Schema) (core.ZodSchema, er
 	// Mixed types - use union of literals
 	literals := make([]any, len(s.Enum))
 	for i, v := range s.Enum {
-		literals[i] = types.Literal(v)
+		literals[i] = literalSchema(v)
 	}
 	return types.Union(literals), nil
 }
